@@ -68,12 +68,15 @@ AllTuples == UNION {{GCode(S, 1) * NV + s : s \in Combos(S, 1)} : S \in Groups}
 Mult    == LET m == ((2 * Seed + 1) * 7919) % 2579 IN IF m = 0 THEN 1 ELSE m
 Rank(c) == ((c + 1) * Mult) % 2579
 
-VARIABLES chosen, uncovered, step
-vars == <<chosen, uncovered, step>>
+\* keys: the candidates' scores of the current step.  TLC re-evaluates a LET definition at every use inside an action,
+\* so the scores are computed by one action (Score) into a variable and consumed by the next one (Select).
+VARIABLES chosen, uncovered, step, keys
+vars == <<chosen, uncovered, step, keys>>
 
 Init == /\ chosen = {DefaultCode}
         /\ uncovered = AllTuples \ Tuples(DefaultCode)
         /\ step = 0
+        /\ keys = {}
 
 \* about 200 candidates per step
 Window(s) == {c \in 0 .. (NV - 1) : (Rank(c) + 97 * s) % 13 = 0}
@@ -85,21 +88,27 @@ FromTuple(t) == LET S == GSet(t \div NV)
                 IN DefaultCode - Sub(DefaultCode, S, 1) + s
 
 \* gain first, permutation rank second (Rank is injective, so a key identifies its vector)
-Next == /\ uncovered # {}
-        /\ LET keys == {Gain(c, uncovered) * 4096 + (2579 - Rank(c)) : c \in Window(step)}
-               best == CHOOSE k \in keys : \A j \in keys : j <= k
-               v    == IF best \div 4096 > 0
-                       THEN CHOOSE c \in Window(step) : Rank(c) = 2579 - (best % 4096)
-                       ELSE FromTuple(CHOOSE t \in uncovered : \A u \in uncovered : t <= u)
-               tv   == Tuples(v)
-           IN /\ chosen' = chosen \cup {v}
-              /\ uncovered' = uncovered \ tv
-        /\ step' = step + 1
+Score == /\ uncovered # {} /\ keys = {}
+         /\ keys' = {Gain(c, uncovered) * 4096 + (2579 - Rank(c)) : c \in Window(step)}
+         /\ UNCHANGED <<chosen, uncovered, step>>
+
+Pick(best) == IF best \div 4096 > 0
+              THEN CHOOSE c \in Window(step) : Rank(c) = 2579 - (best % 4096)
+              ELSE FromTuple(CHOOSE t \in uncovered : \A u \in uncovered : t <= u)
+
+Select == /\ keys # {}
+          /\ \E v \in {Pick(CHOOSE k \in keys : \A j \in keys : j <= k)} :
+                /\ chosen' = chosen \cup {v}
+                /\ uncovered' = uncovered \ Tuples(v)
+          /\ step' = step + 1
+          /\ keys' = {}
+
+Next == Score \/ Select
 
 Spec == Init /\ [][Next]_vars
 
 \* every step covers something new, so the construction terminates with everything covered
-Progress   == [][Cardinality(uncovered') < Cardinality(uncovered)]_vars
+Progress   == [][step' # step => Cardinality(uncovered') < Cardinality(uncovered)]_vars
 Covered(C) == AllTuples \subseteq UNION {Tuples(c) : c \in C}
 TypeOK     == chosen \subseteq 0 .. (NV - 1) /\ uncovered \subseteq AllTuples
 
@@ -112,7 +121,7 @@ Vec(c) == [od |-> Digit(c, 1), pf |-> Digit(c, 2), rp |-> Digit(c, 3), rs |-> Di
            rn |-> Digit(c, 6), ll |-> Digit(c, 7) + 1, ma |-> Digit(c, 8), code |-> c]
 
 ASSUME TLCSet(1, {})
-Collect == IF uncovered = {} THEN TLCSet(1, chosen) ELSE TRUE
+Collect == IF uncovered = {} /\ keys = {} THEN TLCSet(1, chosen) ELSE TRUE
 
 Post == LET base == TLCGet(1)
             plan == base \cup Lowest((0 .. (NV - 1)) \ base, Extra)
